@@ -32,7 +32,7 @@ KINDS = ["feature", "rule", "scenario", "step"]
 ERROR_CLASS = {"error", "hook_error", "undefined", "pending", "cleanup_error"}
 
 
-def census(features):
+def census(features, ran_object=lambda s: s):
     from behave.model import Rule, ScenarioOutline
     counts = {k: Counter() for k in KINDS}
     failed, errored = [], []
@@ -53,9 +53,9 @@ def census(features):
                 items(x)
             elif isinstance(x, ScenarioOutline):
                 for row in x.scenarios:
-                    scen(row)
+                    scen(ran_object(row))     # the row object that RAN (not a rebuilt copy)
             else:
-                scen(x)
+                scen(ran_object(x))
     for f in features:
         counts["feature"][f.status.name] += 1
         items(f)
@@ -165,7 +165,7 @@ def check(case):
     if run.escaped is not None:
         res.fail("C14.escape", "exception escaped run() with summary reporters: %r" % (run.escaped,))
         return res
-    counts, failed, errored = census(run.features)
+    counts, failed, errored = census(run.features, runcheck.ran_object_lookup(run))
     reps = run.config.reporters
     rep_v1 = reps[0]
     # the collector implementation (model visitor), fed with the model after the run
